@@ -500,8 +500,17 @@ class FileIndex(Index):
         from whoosh.reading import SegmentReader, MultiReader, EmptyReader
 
         if reuse:
-            # Merge segments with reuse segments
-            segments.extend([segment for segment in reuse.segments() if segment not in segments])
+            # Carry over the segments of the recycled reader that do not belong
+            # to any stored generation of this index (the in-memory segment of
+            # a BufferedWriter's reader has no generation). Segments that came
+            # from an earlier TOC must not be carried over: whatever is not in
+            # the current TOC has been merged away, replaced or cleared.
+            segments = list(segments)
+            for r, _ in reuse.leaf_readers():
+                segment = r.segment()
+                if (segment is not None and r.generation() is None
+                    and segment not in segments):
+                    segments.append(segment)
 
         reusable = {}
         try:
